@@ -119,8 +119,16 @@ def getAllTerms (f : Nat) (σ : Subst) : List Term → Res (List Term)
   | [] => .ok []
   | t :: ts => (getTerms f σ t).bind fun a => (getAllTerms f σ ts).bind fun b => .ok (a ++ b)
 
+/-- each collected term is replaced by its ground term (repair D13) before it is formatted. -/
+def groundAll (f : Nat) (σ : Subst) : List Term → Res (List Term)
+  | [] => .ok []
+  | t :: ts =>
+    (walk f σ t).bind fun r =>
+      (groundAll f σ ts).bind fun rest => .ok ((match r with | some g => g | none => t) :: rest)
+
 def evalJoin (fo : FloatOps) (f : Nat) (args : List Term) (σ : Subst) : Res Term :=
-  (getAllTerms f σ args).bind fun ts => .ok (.atom (joinStrs (ts.map (Term.show fo.showF)) true))
+  (getAllTerms f σ args).bind fun ts =>
+    (groundAll f σ ts).bind fun gs => .ok (.atom (joinStrs (gs.map (Term.show fo.showF)) true))
 
 /-- the value of a built-in function term (`unify_sfunction`, `built_in_functions.rs`);
     `fail` for an unknown function name (the Rust returns `None`). -/
